@@ -2,6 +2,7 @@
 #include <utility>
 #include <string>
 #include <stdexcept>
+#include <limits>
 
 namespace OP2Utility::Archive
 {
@@ -89,6 +90,12 @@ namespace OP2Utility::Archive
 	void AdaptiveHuffmanTree::UpdateCodeCount(NodeData code)
 	{
 		VerifyNodeDataInBounds(code);
+
+		// The root holds the total count. Refuse an update its counter cannot represent.
+		if (subtreeCount[rootNodeIndex] == std::numeric_limits<NodeType>::max()) {
+			throw std::runtime_error("AdaptiveHuffmanTree cannot count more than "
+				+ std::to_string(std::numeric_limits<NodeType>::max()) + " codes");
+		}
 
 		// Get the index of the node containing this code
 		NodeIndex curNodeIndex = parentIndex[code + nodeCount];
